@@ -4,7 +4,7 @@
 //   - r3/vector.go (Add Sub Mul Dot Cross Norm2 Cmp Abs Normalize LargestComponent Ortho), the exact vectors of
 //     r3/precisevector.go, s2/predicates.go (Sign, triageSign, stableSign, exactSign, symbolicallyPerturbedSign,
 //     expensiveSign, RobustSign, the distance comparisons, SignDotProd), OrderedCCW of s2/point.go   -> PredFns.lean  (C02)
-//   - Ortho / referenceDir / PointCross of s2/point.go, every method of s2/edge_crosser.go, CrossingSign,
+//   - Ortho / referenceDir of s2/point.go (PointCross: see translator_c16), every method of s2/edge_crosser.go, CrossingSign,
 //     VertexCrossing, EdgeOrVertexCrossing, AngleContainsVertex of s2/edge_crossings.go              -> CrossFns.lean (C03)
 //
 // into <out>.  lean/S2Proofs/Ties/C02_Pred.lean and C03_Cross.lean prove `hand-written model = generated definition`.
@@ -141,7 +141,9 @@ var specs = []*fnSpec{
 	{pkg: "r3", key: "Vector.Ortho", lean: "Vector_Ortho", file: 1},
 	{pkg: "s2", key: "Ortho", lean: "Ortho", file: 1},
 	{pkg: "s2", key: "Point.referenceDir", lean: "Point_referenceDir", file: 1},
-	{pkg: "s2", key: "Point.PointCross", lean: "Point_PointCross", file: 1},
+	// Point.PointCross is NOT translated here any more (repair D60: its exact fallback needs big.Float -> float64
+	// conversion with signed zeros, which S2.BigF does not carry); translator_c16 translates it (EdgeNumFns.Point_PointCross)
+	// and Ties/C03_Cross.tie_PointCross ties the C03 hand model to that text.
 	{pkg: "s2", key: "NewEdgeCrosser", lean: "NewEdgeCrosser", file: 1},
 	{pkg: "s2", key: "EdgeCrosser.RestartAt", lean: "EdgeCrosser_RestartAt", file: 1},
 	{pkg: "s2", key: "EdgeCrosser.crossingSign", lean: "EdgeCrosser_crossingSign", file: 1},
